@@ -37,7 +37,7 @@ GoodCorrection(ev) ==
     /\ r.newuuid /\ ~r.hascode
     /\ r.type = ev.combo.type
     /\ r.series = (IF ev.combo.series THEN ev.req_series ELSE ev.src_series)
-    /\ r.issue_date = (IF ev.combo.date THEN ev.req_date ELSE ev.today)
+    /\ (IF ev.combo.date THEN r.issue_date = ev.req_date ELSE r.issue_date \in {ev.today, ev.today2})
     /\ r.npreceding = 1
     /\ r.pre_uuid = ev.src_uuid /\ r.pre_type = ev.src_type /\ r.pre_series = ev.src_series
     /\ r.pre_code = ev.src_code /\ r.pre_date = ev.src_date
@@ -56,7 +56,9 @@ GoodReplica(ev) ==
     LET r == ev.r IN
     /\ r.nsigs = 0 /\ r.nstamps = 0 /\ r.D
     /\ r.newuuid /\ ~r.hascode
-    /\ r.issue_date = ev.today
+    /\ r.issue_date \in {ev.today, ev.today2}
+    \* everything that replicating does not reset or derive anew is kept as it was (payment details, parties, ordering ...)
+    /\ r.kept = ev.src_kept
     /\ r.type = ev.src_type /\ r.series = ev.src_series
     /\ r.business = ev.src_business
 =============================================================================
